@@ -17,7 +17,7 @@ from harness.common import Ck, coq_list, coq_str, coq_bytes, parse_coq_N_list
 from translate import c19_walk
 
 MANIFEST = dict(
-    technique='Rocq proof (backends as translated operation lists refining one folded-name map for every query string; walk_folder exactness for the sound folder forms; RawFileSystem lookup/walk from its translated operations; chain first-match / priority / prefix / de-duplication laws; every public lookup form of a chain - [], in, _get_file, _file_exists, open_bin, open_str, the bytes read, walk_folder, iter - equal to one specification function for members of any backend kind; the VPK content expression and the container reader FileInfo.read() as translated expressions that return the stored bytes in every placement) + fail-closed ast translator working on a canonical form of filesys.py / vpk.py (semantic normalisation, 15 rewrite rules, the rewritten module is executed and compared with the real one on every run) + instance obligations and two instance theorems at the generated configuration + vm_compute correspondence over the four real backends and chains + differential oracle',
+    technique='Rocq proof (backends as translated operation lists refining one folded-name map for every query string; walk_folder exactness for the sound folder forms; RawFileSystem lookup/walk from its translated operations; chain first-match / priority / prefix / de-duplication laws; every public lookup form of a chain - [], in, _get_file, _file_exists, open_bin, open_str, the bytes read, walk_folder, iter - equal to one specification function for members of any backend kind; the VPK content expression and the container reader FileInfo.read() as translated expressions that return the stored bytes in every placement) + fail-closed ast translator working on a canonical form of filesys.py / vpk.py (semantic normalisation, 15 rewrite rules, the rewritten module is executed and compared with the real one on every run) ; round 4: the property as one statement (c19_property: source_ok cfg -> property_holds cfg, instantiated at the generated configuration on every run), add_sys over whole histories of calls with its early-return guard translated, the names RawFileSystem.walk_folder lists as a translated shape, the walk of chains with directory members from a member interface, subfolder prefixes and folder arguments in any spelling without "..") + instance obligations and two groups of instance theorems at the generated configuration + vm_compute correspondence over the four real backends and chains + differential oracle (every call into the implementation under an alarm: a hang or an unexpected exception is a violation with its input)',
     text='Theorems in Props/C19.v, generic over a backend record of normalisation operations regenerated from filesys.py on every run. '
          'Lookup: backends whose query functions convert the slashes, normalise the path and fold the case (today\'s source, obligation *_keys_normalise_every_spelling) agree with each other and with the specification map (folded name -> last stored file) on _get_file, _file_exists and open_bin for EVERY query string; empty and "." segments, either slash and letter case are proved insignificant (c19_normpath_noise, c19_lookup_noise_insensitive); any other recognised form agrees on queries normpath leaves alone (c19_lookup_agree); the pinned forms are refuted on "./x" and ".\\x". '
          'Bytes: what VPKFileSystem.open_bin/open_str read is a translated expression over the FileInfo, and FileInfo.read() itself is translated from vpk.py with the slice displacements found in the source; expressions recognised as whole return the stored bytes for every split between preload and rest, for the directory tail, a numbered archive and a single-file VPK, wherever the rest lies (c19_vpk_content_whole_all_placements, c19_vpk_open_same_bytes, c19_vpk_reader_whole_all_placements, c19_vpk_open_through_reader); the preload shortcut and the one-byte-short slice are refuted. '
@@ -25,8 +25,9 @@ MANIFEST = dict(
          'walk_folder with a sound form (dictionary source, folded key compared with a folder-boundary prefix) lists exactly the surviving files inside the folder (empty folder = all), every listed name looks up to that file, no name twice; string-prefix, root-is-dot, case-sensitive, container-prefilter (VPK.fileinfos) and container-iteration forms are refuted by kernel-computed witnesses. '
          'FileSystemChain: c19_chain_every_form_spec - for every query string and every list of members of whatever backend kind (no premise on the prefixes) chain[q] / _get_file(q), the resolution of open_bin / open_str(q), q in chain / _file_exists(q) in every recognised sound shape and the bytes read from the handle are the specification function chain_spec (first member, in priority order, whose files contain subfolder/name up to case, slash kind and redundant segments); hence the backend kind of a member is unobservable through a chain (c19_chain_backend_kind_unobservable); chains that also contain directory backends answer like chain_spec on queries that are exact for those members (c19_chain_with_directory_members_spec, premise shown necessary); a _file_exists loop that re-assigns the joined name is refuted (c19_chain_exists_carried_name_refuted). Priority insertion first / plain insertion last (both add_sys branches translated); the de-duplicated walk lists each folded name once keeping the first member\'s entry, the dict-overwrite shape is refuted. '
          'Composition (c19_chain_walk_lookup_closed, c19_chain_walk_complete, c19_chain_walk_every_entry_spec, c19_chain_walk_lists_spec, c19_chain_iter_lists_spec): for members with empty or clean prefixes and an empty or clean folder, every (path, File) the de-duplicated walk lists is the specification\'s answer for path (it looks up in every form and reads the listed bytes), and every clean name the specification serves inside the folder is listed with that File; iter(chain) lists every clean name served. All of these are re-instantiated at the generated configuration on every run. '
+         'Round 4 - c19_property: for every configuration (three backend records, VPK content expressions and reader, the directory backend\'s operations and listed-name shape, add_sys guard and branch actions, _file_exists mode, de-duplication mode / key / relative-name mode) that passes the named recognisers, the three sentences of the property hold (backends_agree, walks_exact, chains_honour_priority); today\'s generated configuration passes (obligation property_hypotheses_hold_for_the_generated_configuration, instance theorem today_c19_property). add_sys: c19_chain_history_order / _mounts_all / _spec - after ANY sequence of add_sys calls (method always inserts, first for priority, last otherwise) the chain is the priority members latest first then the others in order, and every lookup form is the specification over that order; a guard `if (sys, prefix) in self.systems: return` is translated (chain_add_guard) and refuted (second archive under the same label dropped, priority re-add ignored). RawFileSystem.walk_folder: how the listed name is computed is translated (raw_walk_relmode); relpath of the joined file name lists stored names (c19_raw_walk_lists_stored_names), relpath of the directory joined with the file name lists root files as "./x" (refuted, also inside a chain). Walk of chains: c19_chain_walk_from_member_interface proves the composition from what the chain needs from a member (lists_sound / lists_complete); folding backends and the directory backend (on folders exact for it - premise shown necessary) satisfy it, so c19_chain_walk_with_directory_members covers chains that contain RawFileSystem; c19_chain_walk_any_spelling / _any_member extend it to prefixes and folders spelt with redundant separators and "." segments in either slash (spells; c19_spellings_one_normal_form). c19_case_duplicate_winner_needs_order: no reader of a container that is the same for both insertion orders serves "the file stored last" - why the known finding cannot be repaired inside VPKFileSystem. '
          'The generated model is compared with the real Virtual/Zip/VPK/Raw backends (lookups in all spellings incl. open_str, VPKs written in 7 data placements, walks of normalised and un-normalised folders) and with chains ([], in, open_bin, open_str, walk_folder, walk_folder_repeat); a reference oracle written from the property checks every public form on the four real backends and on chains of up to 4 members in all orderings, file contents for 5 VPK placement classes with sizes around the preload limits (1024, 65535), plus non-ASCII case folding for the in-memory and zip backends.',
-    note='Trusted: Coq kernel + vm_compute, translate/c19_walk.py (its canonicalisation rewrites are meant to be equivalences of Python programs; on every run the rewritten filesys.py is compiled, executed and compared with the real classes on every lookup form, walks and chains - obligations translate:canonical-form-runs / -is-equivalent), zipfile, the VPK writer of vpk.py (where the bytes are put; the reader is translated; VPK.fileinfos only through a shape check), which numbered archive file is opened (C13), the OS directory semantics (RawFileSystem: exact names via os.path.isfile/open/os.walk after abspath; RootEscapeError belongs to C18). Model restrictions: ASCII case folding only in the model (non-ASCII casefold is searched on the in-memory and zip backends; VPK names are ASCII); stored names are clean relative "/" paths; ".." segments are modelled (full posixpath.normpath) and compared by correspondence but the general noise theorem covers only empty and "." segments; the walk/composition theorems assume empty or clean prefixes and folders (other spellings: correspondence and oracle) - the chain lookup theorem has no such premise; absolute paths are outside the statement; reading a slice of the wrong home is modelled as returning nothing (such readers are never recognised as whole). Which of two stored names differing only in case wins depends on container order (c19_lookup_order_matters_for_case_duplicates); VPK regroups files, see known finding case-duplicate-winner-vpk-differs. Observations (not violations): RawFileSystem.open_bin of a directory raises IsADirectoryError where the others raise FileNotFoundError; File.path of a lookup differs per backend.',
+    note='Trusted: Coq kernel + vm_compute, translate/c19_walk.py (its canonicalisation rewrites are meant to be equivalences of Python programs; on every run the rewritten filesys.py is compiled, executed and compared with the real classes on every lookup form, walks and chains - obligations translate:canonical-form-runs / -is-equivalent), zipfile, the VPK writer of vpk.py (where the bytes are put; the reader is translated; VPK.fileinfos only through a shape check), which numbered archive file is opened (C13), the OS directory semantics (RawFileSystem: exact names via os.path.isfile/open/os.walk after abspath; RootEscapeError belongs to C18). Model restrictions: ASCII case folding only in the model (non-ASCII casefold is searched on the in-memory and zip backends; VPK names are ASCII); stored names are clean relative "/" paths; ".." segments are modelled (full posixpath.normpath) and compared by correspondence but the general noise theorem covers only empty and "." segments; the walk/composition theorems cover prefixes and folders in any spelling of an empty or clean path without ".." (redundant separators, "." segments, either slash; ".." in a prefix or folder: correspondence and oracle), directory members need a cleanly spelt folder that is exact for them - the chain lookup theorem has no premise on prefixes; absolute paths are outside the statement; reading a slice of the wrong home is modelled as returning nothing (such readers are never recognised as whole). Which of two stored names differing only in case wins depends on container order (c19_lookup_order_matters_for_case_duplicates); VPK regroups files, see known finding case-duplicate-winner-vpk-differs. Observations (not violations): RawFileSystem.open_bin of a directory raises IsADirectoryError where the others raise FileNotFoundError; File.path of a lookup differs per backend.',
 )
 
 IMPORTS = ['Coq.Lists.List', 'Coq.NArith.NArith', 'Coq.Bool.Bool', 'SV.SM.FsChain', 'SV.SM.FsChainForms', 'SV.SM.FsChainRead', 'SV.SM.FsChainAdd', 'SV.SM.FsChainNoise', 'SV.SM.FsChainProperty', 'SV.Gen.FsWalk_gen']
@@ -1620,7 +1621,7 @@ def search(ck: Ck, root: str) -> None:
     def unshrinkable(key):
         return key.startswith(('hang-', 'exception-'))
 
-    n = ck.budget(60, 300)
+    n = ck.budget(50, 300)
     for i in range(n):
         files = CORPUS_SETS[i] if i < len(CORPUS_SETS) else gen_files(ck.rng)
         if not files:
@@ -1693,7 +1694,7 @@ def search(ck: Ck, root: str) -> None:
     ck.sample({'file_set': [nm for nm, _ in CORPUS_SETS[0]], 'folder_arguments': folder_candidates(random.Random(1), CORPUS_SETS[0])[:12],
                'query_spellings_of_first': spellings(random.Random(1), CORPUS_SETS[0][0][0])})
     # chains: random members; for small chains every ordering
-    m = ck.budget(60, 350)
+    m = ck.budget(50, 350)
     for i in range(m):
         g = CORPUS_CHAINS[i] if i < len(CORPUS_CHAINS) else gen_chain(ck.rng)
         if g is None:
@@ -1734,7 +1735,9 @@ def run(ck: Ck) -> None:
                'subfolder prefix in several spellings (exact, trailing slash, re-cased, backslashed, "./d", "d/."), priority flags, '
                'every ordering of chains of up to 3 (thorough: 4) members; walk_folder and walk_folder_repeat; every public form '
                '([], in, _get_file, _file_exists, open_bin, open_str, File.open_str, iter) on backends and chains; VPKs written in every data '
-               'placement (preload only, directory tail, numbered archive, single file, no limit) with file sizes 0-100 and around 1024 / 65535. '
+               'placement (preload only, directory tail, numbered archive, single file, no limit) with file sizes 0-100 and around 1024 / 65535; '
+               'chains also over archives mounted under one label (distinct objects that compare equal), a mounted member re-added with priority, and '
+               'lookups / walks between the add_sys calls. '
                'Distinct = different name list (sets) or member tuple (chains); non-trivial = at least two files / two members.')
     ck.trusted.append('hand-written model SM/FsChain.v interpreted over Gen/FsWalk_gen.v (tied by correspondence on every run)')
     ck.trusted.append('zipfile, srctools.vpk.VPK writer/reader and the OS directory tree used to build the real backends; posixpath')
@@ -1747,7 +1750,7 @@ def run(ck: Ck) -> None:
                       'name of the numbered archive that is opened are trusted here (property C13)')
     ck.assumptions.append('case folding is modelled for ASCII only (non-ASCII casefold: oracle on the in-memory and zip backends); stored names are clean relative paths using "/"')
     ck.assumptions.append('the platform is POSIX with a case-sensitive file system (RawFileSystem: exact names only; "\\" is converted by the library, not by the OS)')
-    ck.assumptions.append('composition theorems: member prefixes and the folder argument are empty or clean relative paths (either slash, any case)')
+    ck.assumptions.append('walk composition theorems: member prefixes and the folder argument spell an empty or clean relative path (redundant separators and "." segments allowed, either slash, any case; no ".."); for directory members the folder is cleanly spelt and exact (every stored file below it up to case lies below it exactly)')
     root = str(ck.scratch)
     _ta = time.time()
     ok_t = ck.translate('FsWalk_gen', c19_walk.translate)
